@@ -175,9 +175,10 @@ CORPUS = [
     ('regex-in-setup', _setup("file a.txt = 'abc' -transformed-by grep '*'"), 'VALIDATION', 2),
     ('regex-in-symbol', "[setup]\ndef string R = '('\n" + _assert('stdout matches @[R]@'), 'VALIDATION', 6),
     ('regex-in-used-def', "[setup]\ndef text-matcher TM = matches '('\n" + _assert('stdout TM'), 'VALIDATION'),
-    ('regex-with-sandbox-reference', _assert("stdout matches '(@[EXACTLY_ACT]@'"), 'REJECT|HARD', 4),
+    ('regex-with-sandbox-reference', _assert('stdout matches "(@[EXACTLY_ACT]@"'), 'REJECT|HARD', 4),
+    ('regex-with-sandbox-reference-hard-quoted', _assert("stdout matches '(@[EXACTLY_ACT]@'"), 'VALIDATION', 4),
     ('regex-with-home-reference', _assert('stdout any line : contents matches @[EXACTLY_HOME]@'), None),
-    ('regex-with-home-reference-invalid', _assert("stdout any line : contents matches '(@[EXACTLY_HOME]@'"), 'REJECT|HARD', 4),
+    ('regex-with-home-reference-invalid', _assert('stdout any line : contents matches "(@[EXACTLY_HOME]@"'), 'REJECT|HARD', 4),
     ('regex-with-home-reference-setup', _setup('file a.txt = \'abc\' -transformed-by replace "@[EXACTLY_HOME]@" x'), None),
     ('replacement-invalid-group', _setup("file a.txt = 'abc' -transformed-by replace a '\\1'"), 'VALIDATION', 2),
     ('replacement-unterminated-group', _setup("file a.txt = 'abc' -transformed-by replace a '\\g<'"), 'VALIDATION', 2),
@@ -186,7 +187,7 @@ CORPUS = [
     ('replacement-trailing-backslash', _assert("stdout -transformed-by replace a 'x\\' is-empty"), 'VALIDATION', 4),
     ('replacement-group-six', _assert("stdout -transformed-by replace '(a)(b)' '\\6' is-empty"), 'VALIDATION', 4),
     ('replacement-never-applied', _assert("stdout -transformed-by replace a '\\1' is-empty"), 'VALIDATION', 4),
-    ('replacement-with-sandbox-reference', _assert("stdout -transformed-by replace '@[EXACTLY_ACT]@' '\\1' is-empty"),
+    ('replacement-with-sandbox-reference', _assert("stdout -transformed-by replace \"@[EXACTLY_ACT]@\" '\\1' is-empty"),
      'REJECT|HARD', 4),
     ('replacement-in-used-def', "[setup]\ndef text-transformer TT = replace a '\\1'\n" +
      _assert('stdout -transformed-by TT is-empty'), 'VALIDATION'),
@@ -223,6 +224,10 @@ CORPUS = [
     ('path-too-long-files-source', '[setup]\ndir nd = {\nfile ' + LONG + '\n}\n' + ACT, 'REJECT|HARD', 2),
     ('path-too-deep-files-source', '[setup]\ndir nd = {\nfile ' + 'a/' * 2100 + 'b\n}\n' + ACT, 'REJECT|HARD', 2),
     ('path-too-deep-cd', _setup('cd ' + 'a/' * 2100 + 'b'), 'REJECT|HARD', 2),
+    ('copy-directory-into-itself', PRE + '[setup]\ncopy -rel-act d -rel-act d/x/y\n' + ACT, None),
+    ('copy-act-directory-into-itself', '[setup]\ncopy -rel-act "" nd1/sub\n' + ACT, None),
+    ('dir-contents-of-itself', PRE + '[setup]\ndir -rel-act d/x/y = dir-contents-of -rel-act d\n' + ACT, None),
+    ('copy-directory-into-itself-one-level', PRE + '[setup]\ncopy -rel-act d -rel-act d/x\n' + ACT, None),
     # ---- NUL --------------------------------------------------------------------------------------------------------------------
     ('nul-in-file-name', _setup('file "a\\0b.txt" = x'), None),
     ('nul-in-program-argument', _setup('run % echo "a\\0b"'), None),
